@@ -89,9 +89,10 @@ class Monitor:
             for idx, h in self.predef:
                 # if two registered strings share a text the first registration wins the text->id map;
                 # the `predef` observation then exposes the clash
-                self.id_of.setdefault(h, idx)
-                self.text_of[idx] = h
-            self.count = len(self.text_of)
+                if h not in self.id_of:
+                    self.id_of[h] = idx
+                    self.text_of[idx] = h
+            self.count = len(self.id_of)
 
     def fail(self, i, kind, msg):
         if self.bad is None:
@@ -112,8 +113,6 @@ class Monitor:
             return
         if op in ("dict", "master"):
             self.reset_state(op == "master")
-            if op == "master" and self.predef is not None and len(o) > 1 and int(o[1]) != self.count:
-                self.fail(i, "master-size", "fresh script master holds %s strings, registry has %d distinct" % (o[1], self.count))
             return
         if op in ("add", "adds") and len(t) == 2 and len(o) >= 3:
             h, ident, cnt = t[1], int(o[1]), int(o[2])
@@ -190,6 +189,8 @@ class Prop:
     def classify(self, lines, impl, crash, model):
         if crash:
             return "violation", "implementation crashed / sanitizer report / hang: " + crash, crash
+        if impl and impl[-1].startswith("PHI-VIOLATION"):
+            impl = impl[:-1]
         bad = phi(lines, impl, self.predef)
         if bad:
             i, kind, msg = bad
@@ -210,6 +211,20 @@ class DictDiff(Diff):
     def __init__(self, *a, **k):
         Diff.__init__(self, *a, **k)
         self.want_phi = False
+
+    def both(self, lines):
+        """the property monitor runs on every implementation trace, not only on differing ones: when
+        a theorem or table obligation no longer checks, model and code may agree with each other and
+        both break the property.  A monitor failure is made visible to the generic engine as one
+        extra implementation line."""
+        impl, crash, info, model = Diff.both(self, lines)
+        if crash is None:
+            t = time.time()
+            bad = phi(lines, impl, self.prop.predef)
+            self.phi_s = getattr(self, "phi_s", 0.0) + time.time() - t
+            if bad:
+                impl = impl + ["PHI-VIOLATION line %d %s" % (bad[0], bad[1])]
+        return impl, crash, info, model
 
     def differs(self, lines):
         if not self.want_phi:
@@ -418,7 +433,7 @@ def check(ctx):
                                            "more 50", "predef", "add 6162", "str 5", "reset", "predef", "all", "dump"]),
                         ("fixed:collide", ["dict"] + ["add " + hx(t) for t in colliding(4)] + ["get " + hx(t) for t in colliding(4)] + ["all", "dump"])])
     rng = ctx.rng("random")
-    ncases, length = (150, 220) if quick else (2500, 900)
+    ncases, length = (400, 220) if quick else (6000, 900)
     batch = []
     for i in range(ncases):
         batch.append(("random:%d" % i, gen_case(rng, rng.choice([10, 40, length]))))
@@ -432,7 +447,7 @@ def check(ctx):
         bad += d.run_batch([("exh:%d" % (i + j), c) for j, c in enumerate(exh[i:i + 3000])])
     # growth across the prime table
     rg = ctx.rng("growth")
-    sizes = [200, 1500, 6000, 12000] if quick else [200, 1500, 6000, 23000, 45000, 100000, 100000]
+    sizes = [200, 1500, 6000, 12000, 25000] if quick else [200, 1500, 6000, 23000, 45000, 100000, 100000]
     growth = []
     for k, n in enumerate(sizes):
         growth.append(("growth:%d:%d" % (k, n), gen_growth(rg, n, master=(k % 2 == 1), presize=(k % 3 != 2))))
@@ -447,8 +462,15 @@ def check(ctx):
         bad += d.run_batch([("presize:fill", ["dict", "more %d" % n] + gen_growth(rg, n, False, presize=False)[1:]),
                             ("presize:after", gen_growth(rg, 9000, True)[:-2] + ["more 300000", "predef", "all"] +
                              ["add " + hx(("late_%d" % i).encode()) for i in range(3000)] + ["predef", "all"])])
+    if not ctx.stats.get("lake_build_ok"):
+        # the search guided by the failed build found concrete failing inputs: they stand for it
+        for v in ctx.violations:
+            if v.get("found_input"):
+                v["obligation"] = "lake build"
+                break
     ctx.oblige("correspondence harness/dict.cpp == Dict model on %d histories" % d.cases, bad == 0,
                "%d differing cases" % bad, reported=True)
+    ctx.stats["monitor_s"] = round(getattr(d, "phi_s", 0.0), 1)
     ctx.samples = [gen_case(ctx.rng("sample"), 10)[:14]]
     cov = {
         "evaluations": d.cases, "distinct_nontrivial": len(d.distinct),
